@@ -209,7 +209,7 @@ def c10_5(cx):
         oo = c0._origin_def(site, kind, node, 0, None, ())
         if oo == "const:0":
             continue
-        cx.only_if(c0, site, CallIs(r"^std::cmp::PartialEq::eq$", True, [r"^\$2\.id$"], desc="entry.id == key.key_index()"), "a match requires the id to be equal")
+        cx.only_if(c0, site, Cmp(r"^\$2\.id$", "==", r"^key::DatabaseKeyIndex::key_index\(\$1\.0\)$", desc="entry.id == key.key_index()"), "a match requires the id to be equal")
         cx.flow(c0, oo, [r"^<IngredientIndex as std::cmp::PartialEq>::eq\(tracked_struct::Identity::ingredient_index\(\$2\.identity\), key::DatabaseKeyIndex::ingredient_index\(\$1\.0\)\)$"], [r"^const:1$"], "and the ingredient to be equal", site)
 
 
